@@ -333,8 +333,9 @@ class IncludeIpsNode(NodeProtocol):
             if ips_file.read(5) != b"PATCH":
                 raise RuntimeError(f'{self.ips_file_path} is missing "PATCH" header')
 
-            while ips_file.peek(3)[:3] != b"EOF":
-                block_addr_bytes = struct.unpack(">BH", ips_file.read(3))
+            # peek() may return fewer than three bytes at a buffer boundary.
+            while (record_header := ips_file.read(3)) != b"EOF":
+                block_addr_bytes = struct.unpack(">BH", record_header)
                 block_addr = (block_addr_bytes[0] << 16) | block_addr_bytes[1]
                 block_size_word = struct.unpack(">H", ips_file.read(2))
                 block_size = block_size_word[0]
